@@ -31,6 +31,7 @@ def run(prop: str, tier: str, repo: str, shared: "Ctx | None" = None) -> int:
         mod = importlib.import_module(f"sa.rules.{prop.lower()}")
         ctx._rule_stack[:] = [prop.lower()]  # pylint: disable=protected-access
         ctx._rule_tainted.clear()  # pylint: disable=protected-access
+        ctx.__dict__.setdefault("_rule_cuts", {}).clear()
         mod.run(ctx, report)
         if tier == "thorough":
             if hasattr(mod, "thorough"):
